@@ -657,6 +657,66 @@ def r10_8(ctx, counts) -> RuleResult:
     return res
 
 
+GATES = ('validate', 'fromstring', '__new__', '__init__')
+
+
+def r10_13(ctx, counts) -> RuleResult:
+    """the lexical pattern of a datatype class is what its text gate matches against"""
+    model: Model = ctx.model
+    res = RuleResult(
+        'R10.13', 'PATTERN-GATES-TEXT',
+        'A datatype class that declares its lexical space as a `pattern` (a LazyPattern / regex '
+        'class attribute other than the placeholder ^$) accepts text only through that pattern: '
+        'among the methods validate / fromstring / __new__ / __init__ that the class inherits or '
+        'defines, at least one matches `cls.pattern` / `self.pattern` against the text, and a '
+        'method of that set that the class itself overrides either does so or delegates to '
+        '`super().<same method>(..)` — an override that decides by other means (a strict base64 '
+        'decode, a length test) detaches the constructor, is_valid, cast and castable from the '
+        'declared lexical space while they still agree with each other.')
+    n = 0
+    for cls in sorted(model.all_classes(), key=lambda c: c.key):
+        if not cls.module.name.startswith('elementpath.datatypes'):
+            continue
+        pat = cls.attrs.get('pattern')
+        if pat is None or "'^$'" in stmt_text(pat) or '"^$"' in stmt_text(pat):
+            continue
+        n += 1
+
+        def uses_pattern(fn) -> bool:
+            return any(isinstance(x, ast.Attribute) and x.attr == 'pattern'
+                       and isinstance(x.value, ast.Name) and x.value.id in ('cls', 'self')
+                       for x in ast.walk(fn.node))
+
+        def delegates(fn) -> bool:
+            return any(isinstance(x, ast.Call) and isinstance(x.func, ast.Attribute)
+                       and x.func.attr == fn.name and isinstance(x.func.value, ast.Call)
+                       and dotted(x.func.value.func) == 'super' for x in ast.walk(fn.node))
+        own = [cls.methods[g] for g in GATES if g in cls.methods]
+        inherited = [c.methods[g] for c in cls.mro() for g in GATES if g in c.methods]
+        any_gate = any(uses_pattern(fn) for fn in inherited)
+        cut = [fn for fn in own if fn.name in ('validate', 'fromstring')
+               and not uses_pattern(fn) and not delegates(fn)]
+        res.instances.append(f'{cls.key}: pattern matched by a gate: {any_gate}; own gates '
+                             f'{[fn.name for fn in own]} bypassing it: {[fn.name for fn in cut]}')
+        if any_gate and not cut:
+            res.ok()
+        elif cut:
+            res.fail(finding('R10.13', cut[0], cut[0].node, f'{cls.name}.{cut[0].name} ignores pattern',
+                             f'{cls.name} declares its lexical space with `pattern` but its own '
+                             f'{cut[0].name}() neither matches the text against it nor delegates '
+                             f'to super().{cut[0].name}(): the constructor, is_valid, cast and '
+                             f'castable accept whatever the replacement test accepts'))
+        else:
+            res.fail(finding('R10.13', None, cls.node, f'{cls.name} pattern never matched',
+                             f'{cls.name} declares `pattern` but no validate / fromstring / '
+                             f'__new__ / __init__ in its MRO matches text against it',
+                             module=cls.module))
+    counts['classes_with_lexical_pattern'] = n
+    if n < 15:
+        raise AnalysisError(f'datatype classes with a lexical pattern located: {n} < 15')
+    return res
+
+
 def run(ctx) -> dict:
     spec = json.load(open(SPEC))
     counts: dict[str, int] = {}
@@ -679,8 +739,12 @@ def run(ctx) -> dict:
     _m.title = 'ARGUMENT-KEYED-MEMO (R05.10 shared: a cached constructor token serves one parser)'
     results.append(_m)
     # the lexical -> value mapping of timezone offsets keeps the sign of -00:MM
-    from .c11_datetime import r11_5
+    from .c11_datetime import r11_5, r11_8
     results.append(r11_5(ctx, counts))
+    # a value memoised on a date/time object (hash, delta) is reset by every setter it depends on:
+    # equal values must keep equal hashes after adjust-*-to-timezone
+    results.append(r11_8(ctx, counts))
+    results.append(r10_13(ctx, counts))
     # process-wide state is written only by the reviewed inventory (no new caches)
     from .c19_global import r19_5 as _r19_5
     _state = _r19_5(ctx, counts, lambda f: f.module.name.startswith(('elementpath.datatypes', 'elementpath.helpers', 'elementpath.xpath2._xpath2_operators', 'elementpath.xpath2._xpath2_constructors')), 1)
